@@ -12,21 +12,26 @@ def runs(tier, seed, replay):
 
 CONFIG = {
     "runs": runs,
-    "status": "full (for WF C n, all_reachable C, 2 <= n, to_cnf C n = Ok F; arbitrary size, sharing, single-child and n-ary nodes): "
+    "status": "full, true/false nodes and childless and/or nodes INCLUDED (model = Cnf::from after the repair F20: a constant is the empty and / empty or "
+              "and gets a Tseitin variable like every operation with <> 1 operands). Hypotheses: C <> [], idx_ok C, complete C n (three fields of WF C n), "
+              "all_reachable C, 2 <= n, to_cnf C n = Ok F; arbitrary size, sharing, single-child and n-ary nodes, constants anywhere: "
+              "C19_total (idx_ok C -> the repaired Cnf::from returns a CNF: no panic site left), "
               "C19_sound (every satisfying assignment of the CNF restricted to 1..n is a model of the d-DNNF), "
               "C19_extension_exists_unique (every model extends to a satisfying assignment, unique on all declared variables), "
               "C19_projection (truth table of the CNF over its declared variables projects onto Models C n, each model exactly once), "
-              "C19_equicount (number of CNF models = root_count), "
+              "C19_equicount_models (number of CNF models = MC C n), C19_equicount (= root_count; this one under the whole bundle WF C n), "
               "C19_header (declared variables = distinct variables = largest variable = n + number of Tseitin variables, "
-              "declared clauses = length of the clause list), C19_ok_excludes_true_false; "
-              "refuted: C19_refuted_true_node (K5: Cnf::from panics on a circuit with a true node), "
-              "C19_refuted_empty_operation (K10: panics on the childless or node the d4 loader leaves for an or node with only false children); "
-              "C19_reachability_needed shows the hypothesis all_reachable (part of check_wf) cannot be dropped; partial: nothing",
+              "declared clauses = length of the clause list); "
+              "about the code before the repair (to_cnf_v0): C19_refuted_true_node (K5: Cnf::from panicked on a circuit with a true node), "
+              "C19_refuted_empty_operation (K10: panicked on the childless or node the d4 loader leaves for an or node with only false children), "
+              "C19_ok_excludes_true_false (it returned a CNF only without true/false nodes), C19_repair_conservative (where it returned a CNF the repaired code returns the same one); "
+              "C19_reachability_needed / C19_two_features_needed show that all_reachable (part of check_wf) and 2 <= n cannot be dropped; partial: nothing",
     "assumptions": [
-        "theorems are about the Gallina model Model/ToCnf.v of cnf/into.rs + ddnnife_cnf; tied to the code by exact equality of the clause list (clause and literal order) and of num_variables on every generated input",
-        "WF and all_reachable of each loaded vector are discharged per input by the verified check_wf (C01), not proved for the loaders",
+        "theorems are about the Gallina model Model/ToCnf.v of cnf/into.rs + ddnnife_cnf AFTER repo_patches/F20-to-cnf-constants.patch; tied to the code by exact equality of the clause list (clause and literal order) and of num_variables on every generated input; against a tree without F20 the check reports the old signatures to_cnf:true-node / to_cnf:false-node / to_cnf:empty-operation as violations",
+        "the hypotheses of the theorems (all implied by check_wf C n) are discharged per loaded vector by the verified check_wf (C01), not proved for the loaders",
         "oracle independent of the model: DPLL model counter over the declared variables of the implementation's CNF (cross-checked by brute force up to 12 variables) against the source formula's truth table; projection onto 1..n compared with the source model set for n <= 10; header checked against the printed text",
-        "input space: C01 input space restricted to n >= 2 (exhaustive functions over 1..3 features (+4 thorough) with 0..2 unmentioned features, random CNFs up to 12 (18 thorough) features; d4 and c2d; c2d with kept true nodes)",
+        "input space: C01 input space restricted to n >= 2 (exhaustive satisfiable functions over 1..3 features (+4 thorough) with 0..2 unmentioned features, random CNFs up to 12 (18 thorough) features; d4 and c2d); classes with constants, counted in the STAT lines class_*: c2d with kept true nodes (A 0), c2d with kept false nodes (O 0 0; one case in six), d4 trivial components (and nodes over t only -> childless and), d4 dead and-chains above f, d4 dead or nodes (all edges into f -> childless or; one d4 case in ten) and seven hand-written files (the four reproductions of K5 / K10, two true nodes sharing one variable, true below a single-child and, true and false below one or)",
+        "outside the input space (not well-formed / not satisfiable, observed only): a model whose root mentions fewer than n features (e.g. the c2d files 'nnf 1 0 2 / O 0 0' and 'nnf 1 0 2 / A 0') gets a header that counts the DISTINCT variables of the clauses ('p cnf 1 2 / -3 0 / 3 0': one declared variable, largest variable 3)",
         "usize/isize overflow of variable numbers is not modelled (Z); CLI/FFI wrappers call the same Cnf::from and Display",
     ],
 }
